@@ -75,7 +75,7 @@ theorem C08_src_fromCan_toCan (f : Frame) (h : f.CanCanonical) :
     (match toCan f with | .ok c => Src.fromCan c | .err e => .err e | .panic => .panic) = .ok f := by
   have := Ross.fromCan_toCan f h
   cases hc : toCan f with
-  | ok c => rw [hc] at this; simpa [Ross.src_fromCan_eq] using this
+  | ok c => rw [hc] at this; exact ((Ross.src_fromCan_agrees c).1 f).2 this
   | err e => rw [hc] at this; exact this
   | panic => rw [hc] at this; exact this
 
